@@ -292,7 +292,8 @@ Theorem add_output_admission cfg outs o outs' :
   add_output cfg outs o = Ok outs' ->
   outs' = outs ++ [o] /\ meets_min (c_cpb cfg) o = true /\ out_value_size o <= c_max_value_size cfg.
 Proof.
-  unfold add_output. destruct (check_output_limits cfg o) as [[]| | |] eqn:C; cbn [bind]; try discriminate.
+  unfold add_output. destruct (ma_has_empty_entries (o_ma o)); [discriminate|].
+  destruct (check_output_limits cfg o) as [[]| | |] eqn:C; cbn [bind]; try discriminate.
   intros H; inversion H; subst. apply check_output_limits_ok in C. unfold output_ok in C.
   apply andb_prop in C. destruct C as [A B]. apply N.leb_le in B. auto.
 Qed.
@@ -302,7 +303,7 @@ Theorem add_output_invariant cfg outs o outs' :
   forallb (output_ok cfg) outs = true -> add_output cfg outs o = Ok outs' ->
   forallb (output_ok cfg) outs' = true.
 Proof.
-  intros I H. unfold add_output in H.
+  intros I H. unfold add_output in H. destruct (ma_has_empty_entries (o_ma o)); [discriminate|].
   destruct (check_output_limits cfg o) as [[]| | |] eqn:C; cbn [bind] in H; try discriminate.
   inversion H; subst. rewrite forallb_app, I. cbn [forallb andb].
   rewrite (check_output_limits_ok _ _ C). reflexivity.
@@ -324,6 +325,7 @@ Qed.
 Lemma add_output_never_panics cfg outs o : add_output cfg outs o <> Panic /\ add_output cfg outs o <> OutOfFuel.
 Proof.
   unfold add_output, check_output_limits, check_max_value_size.
+  destruct (ma_has_empty_entries (o_ma o)); [split; discriminate|].
   destruct (c_max_value_size cfg <? out_value_size o); cbn [bind]; [split; discriminate|].
   unfold min_ada_for_output. rewrite calculate_ada_abs_eq.
   pose proof (rounds_total 3 (c_cpb cfg) (out_base o) (o_coin o)) as [P F]. unfold calculate_ada_abs.
